@@ -163,5 +163,10 @@ pub fn generate(g: &mut Gen, thorough: bool) {
         let wide = g.rng.chance(1, 3);
         let v = [if wide { pick(g, -12.6, 12.6) } else { pick(g, -3.2, 3.2) }, if wide { pick(g, -6.3, 6.3) } else { pick(g, -1.6, 1.6) }, pick(g, -100.0, 9000.0), pick(g, 1990.0, 2030.0)];
         g.push(format!("S_C19U\t{}", v.iter().map(|x| crate::wire::fbits(*x)).collect::<Vec<_>>().join(",")), "oracle-tuple-unit-conversions", true);
+        // the constructors read the same tuple as sexagesimal, degrees, or raw numbers: all four types alike
+        g.push(format!("S_C19K\t{}", v.iter().map(|x| crate::wire::fbits(*x)).collect::<Vec<_>>().join(",")), "oracle-tuple-constructors", true);
+        let dms = [(g.rng.below(89) as f64 * 10000.0 + g.rng.below(60) as f64 * 100.0 + g.rng.uniform(0.0, 59.99)) * if g.rng.chance(1, 3) { -1.0 } else { 1.0 },
+            g.rng.below(179) as f64 * 10000.0 + g.rng.below(60) as f64 * 100.0 + g.rng.uniform(0.0, 59.99), g.rng.uniform(-100.0, 5000.0), 2020.5];
+        g.push(format!("S_C19K\t{}", dms.iter().map(|x| crate::wire::fbits(*x)).collect::<Vec<_>>().join(",")), "oracle-tuple-constructors", true);
     }
 }
